@@ -36,16 +36,20 @@ ASSUMPTIONS = [
     "x0 != 0 always have a rational norm and are normalised literally as in run_batched_cg",
     "exact model: columns are independent records (all reductions in cg.py are over axis -2); agreement of the real "
     "multi-column runs with TLC's per-column values is established by the replay",
-    "lock-step replay uses tol = 1e-300 so that only max_iters (or an exactly zero floating-point residual) stops "
+    "lock-step replay uses tol = 1e-300 (1e-15 for float32/complex64, where smaller values push gamma into the "
+    "denormals) so that only max_iters (or a residual far below the resolution of the dtype) stops "
     "the loop; floats are compared with TLC's exact iterates at 1e-8 (float64/complex128) / 2e-3 (float32/complex64) "
     "relative to max(1, |x|)",
     "control traces: the per-column flag above = (||r|| > tol*(1+||r_init||)) is recomputed by the harness from the "
     "loop state passed to the real cond_fun (values within 1e-12 relative of the threshold are logged as 'either'); "
     "products with A are counted by a counting LinearOperator around the dense matrix",
     "optimality on the larger floating-point systems is a harness-side numeric predicate, not decided by TLC: the "
-    "returned iterate's A-norm error must be <= (1+1e-6) * the optimum over x0 + K_k(MA, M r0) + 1e-7*||x*||_A, "
+    "returned iterate's A-norm error must be <= (1+1e-6) * the optimum over x0 + K_k(MA, M r0) + 1e-6*||x*-x0||_A, "
     "where the optimum comes from a dense doubly re-orthogonalised Arnoldi basis and a dense solve; evaluated only "
-    "where cond(A) <= 1e3 and k <= 40 (finite-precision CG is not Krylov-optimal beyond that)",
+    "where cond(MA) <= 1e2 and k <= 5 steps (beyond that finite-precision CG - a textbook implementation just as "
+    "cola's - measurably departs from the exact Krylov optimum: 1e-2 of the initial error at k = 10 on two-level "
+    "spectra), on the recorded execution when it took <= 5 steps and on a second execution capped at "
+    "max_iters = 1 + idx % 5",
     "info['errors'] values are compared with the tracked residuals in the harness (boolean errs_ok in the trace)",
     "only the NumPy backend exists here",
 ]
@@ -261,6 +265,9 @@ def run_model(systems, wd):
 DTYPES = {False: ["float64", "float32"], True: ["complex128", "complex64"]}
 IS32 = {"float32", "complex64"}
 LOCK_TOL = 1e-300
+# 32-bit runs: with tol < ~1e-20 an exactly converging system drives gamma = r^H z into the float32 denormals
+# (outside the property's tol range); 1e-15 is still eight orders below float32 resolution
+LOCK_TOL32 = 1e-15
 
 
 class _Recorder:
@@ -438,7 +445,7 @@ class _Capped:
             self.items.append(v)
 
 
-LOCK_SIG = ("api", "dtype", "n", "ncols", "precond", "x0", "unit_rhs", "zero_col", "model_agrees", "exc")
+LOCK_SIG = ("api", "dtype", "x0", "x0_given", "rhs_ndim", "unit_rhs", "zero_col", "model_agrees", "nan", "exc")
 SCALES = [-2.0, 1e-6, 1e6]
 
 
@@ -455,6 +462,7 @@ def lock_system(args):
         X0 = np.array(s["X0"], dtype=dt).T.copy()
         b = B[:, 0].copy() if rhs_ndim == 1 else B
         tol_cmp = 2e-3 if dt in IS32 else 1e-8
+        ltol = LOCK_TOL32 if dt in IS32 else LOCK_TOL
         for k in sorted(recs):
             rec = recs[k]
             oracle = np.stack([exact_vec(v) for v in rec["oracle"]], axis=1)
@@ -469,7 +477,7 @@ def lock_system(args):
                     continue
                 P = build_precond(s["precond"], Ad, s["P"])
                 record = api == "cg" and (tier == "thorough" or dt not in IS32)
-                x, ev, exc = run_recorded(api, Ad, b, x0, P, LOCK_TOL, k, record=record)
+                x, ev, exc = run_recorded(api, Ad, b, x0, P, ltol, k, record=record)
                 nruns += 1
                 base = {"api": api, "dtype": dt, "n": n, "ncols": ncols, "precond": s["precond"], "x0": s["x0"],
                         "x0_given": x0 is not None, "rhs_ndim": rhs_ndim, "k": k, "complex": s["cplx"], "mat": s["mat"]}
@@ -480,7 +488,7 @@ def lock_system(args):
                                           f"{api} raised {exc['exc']}: {exc['msg']}", rp))
                     continue
                 if ev:
-                    traces.append((dict(base, source="lockstep", tol="1e-300", maxit=k, case=case), ev))
+                    traces.append((dict(base, source="lockstep", tol=f"{ltol:g}", maxit=k, case=case), ev))
                 if tuple(x.shape) != tuple(b.shape):
                     viol.append(Violation(PROP, "shape", case, base,
                                           f"solution has shape {tuple(x.shape)} for a right-hand side of shape "
@@ -494,6 +502,7 @@ def lock_system(args):
                     err = float(np.abs(X[:, j] - oracle[:, j]).max()) if np.all(np.isfinite(X[:, j])) else float("inf")
                     merr = float(np.abs(X[:, j] - model[:, j]).max()) if np.all(np.isfinite(X[:, j])) else float("inf")
                     at["model_agrees"] = bool(merr <= tol_cmp * max(1.0, float(np.abs(model[:, j]).max())))
+                    at["nan"] = bool(np.any(np.isnan(X[:, j])))
                     if s["zero"][j]:
                         if not np.all(X[:, j] == 0):
                             viol.append(Violation(PROP, "zero_rhs", case, at,
@@ -690,7 +699,8 @@ def large_case(args):
     meta["steps"] = k_main
     for j in range(ncols):
         if c["zero_cols"][j] and not np.all(X[:, j] == 0):
-            viol.append(Violation(PROP, "zero_rhs", meta["case"], dict(meta, col=j, zero_col=True),
+            viol.append(Violation(PROP, "zero_rhs", meta["case"],
+                                  dict(meta, col=j, zero_col=True, nan=bool(np.any(np.isnan(X[:, j])))),
                                   f"column {j}: zero right-hand side but max |x| = {np.abs(X[:, j]).max():.3g}", rp))
     # (d) numeric projection predicate
     Md = np.eye(n, dtype=Ad.dtype) if P is None else np.asarray(P.to_dense())
